@@ -3,6 +3,8 @@
 -/
 import Rsactor.Inv.Fifo
 import Rsactor.Inv.Rej
+import Rsactor.Ties.send_paths_shape
+import Rsactor.Ties.lifecycle_arms
 
 namespace Rsactor.Props.C02
 open Rsactor Rsactor.Model Rsactor.Monitor
@@ -37,5 +39,10 @@ example : ∃ s, run? (init 1 {})
      .pollTerm, .pollMail, .grantWake 1, .push 1, .gate, .handlerDone, .pollTerm, .pollMail] = some s ∧
     startedMids s.ev = [0, 1] := by
   refine ⟨_, rfl, ?_⟩; decide
+
+
+/-! ### ties to the source: shape lemmas about the tables regenerated from /repo on every run -/
+-- @tie Rsactor.Ties.send_paths_shape
+-- @tie Rsactor.Ties.lifecycle_arms
 
 end Rsactor.Props.C02
